@@ -54,4 +54,26 @@ theorem new_inCell_classes {n m : Nat} {vc : Classes} {op : OP} (hn : 0 < n) (hc
     simp only [bdL]
     rw [show q = 0 + q by omega, hb]
 
+/-- the initial work list has as many entries as there are bins -/
+theorem new_btc_len {n m : Nat} {vc : Classes} {op : OP} (h : newOrderedPartition n m vc = .ok (some op)) :
+    op.binsToCheck.len = op.binDividers.len := by
+  unfold newOrderedPartition at h
+  osplit h
+  all_goals
+    simp only [Outcome.ok.injEq, Option.some.injEq] at h
+    subst h
+    rfl
+
+theorem new_btc_wf {n m : Nat} {vc : Classes} {op : OP} (hn : 0 < n) (hc : ClassesOK n vc)
+    (h : newOrderedPartition n m vc = .ok (some op)) :
+    op.binsToCheck.WF ∧ op.binsToCheck.len = op.binDividers.len := by
+  have hl := new_btc_len h
+  obtain ⟨op', h', hs, _, _, z3, _, z5, _⟩ := new_spec (m := m) hn hc
+  rw [h] at h'
+  obtain rfl : op = op' := Option.some.inj (Outcome.ok.inj h')
+  have hw : op.binDividers.len ≤ op.binDividers.data.size := hs.wfBd
+  refine ⟨?_, hl⟩
+  show op.binsToCheck.len ≤ op.binsToCheck.data.size
+  omega
+
 end CanonF
